@@ -89,7 +89,7 @@ def run_e1(prop, tier, seed, ev, jobs=12):
         q = {"engine": "kani/cbmc", "name": n, "bound": h.get("bound", ""), "verdict": r["status"],
              "time_s": round(r["time_s"], 2), "checks": r.get("n_checks", 0), "covers_reached": r["covers_sat"],
              "covers_unreached": r["covers_unsat"], "states": r.get("n_checks", 0),
-             "transitions": int(r.get("stats", {}).get("vccs_generated", 0) or 0),
+             "transitions": int((r.get("stats") or {}).get("vccs_generated", 0) or 0),
              "nontrivial": r["covers_sat"] > 0 and r["covers_unsat"] == 0}
         ev.add_query(**q)
         if r["status"] == "success":
